@@ -109,6 +109,12 @@ class P:
             ns = [10, 100, 255, 256, 257, 300, 1000, 10000, 100000, 1000000]
             nrand = 200000
         cases += flow.mk_cases("alpha", ["PARSE:" + hx(s) for s in strs])
+        # number spellings at and beyond what a decimal holds: digit counts, fractional digit counts, leading zeros
+        nums = []
+        for k in (1, 9, 10, 18, 19, 20, 27, 28, 29, 30, 31, 40, 100, 1000):
+            nums += ["9" * k, "1" + "0" * k, "0." + "0" * k + "1", "0." + "0" * k + "12", "1." + "0" * k, "0." + "9" * k, "0" * k + "7", "5." + "5" * k,
+                     "- 0." + "0" * k + "1 + 1", "[0." + "0" * k + "3]"]
+        cases += flow.mk_cases("numbers", ["PARSE:" + hx(s) for s in nums])
         cases += flow.mk_cases("rand", ["PARSE:" + hx(gens.random_string(rng, 16)) for _ in range(nrand)])
         from . import progs
         valid = progs.sample_programs(rng, 300 if tier == "quick" else 20000)
